@@ -195,6 +195,9 @@ func runCtl(c *rig.Ctx, cs Case) verdict {
 				}
 			}
 		}
+		if countOutcomes && op.Op == "deliver" {
+			c.Count("ctl-deliver:" + res)
+		}
 		if res == "crash" {
 			steps = append(steps, ctlObs{Result: res})
 			break
